@@ -44,7 +44,9 @@ DIMS = {
     "o_suppress": [False, True],
     "o_subproto": [None, ["chat"], ["chat", "v2.x"], ["Chat.V2", "MQTT"]],
     "o_cookie": [None, "k=v; k2=v2"],
-    "o_header": [None, ["X-A: 1", "X-B: two words"], {"X-A": "1", "X-N": None}, {"X-N": None}, {"User-Agent": "ua/1.0"}],
+    "o_header": [None, ["X-A: 1", "X-B: two words"], {"X-A": "1", "X-N": None}, {"X-N": None}, {"User-Agent": "ua/1.0"}, {"X-Empty": ""}, {"X-A": "1", "X-Empty": "", "X-N": None}],
+    # the URL is reached through a redirect from another URL (of the other or of the same scheme): the request reflects the URL it is sent to
+    "redirected": [None, None, None, "other-scheme", "same-scheme"],
     "o_connection": [None, "keep-alive, Upgrade"],
     # options that concern the transport, the TLS layer or the receive side: the request is the same with and without them
     "o_unrelated": [None, None, {"sslopt": {"server_hostname": "sni.other.test"}}, {"sslopt": {"check_hostname": False, "cert_reqs": 0}},
@@ -111,10 +113,21 @@ def one(res, W, c, keys_seen, fresh=False):
         opts.update({k: (dict(v) if isinstance(v, dict) else v) for k, v in unrelated.items()})
         res.count("with_unrelated_option:" + "+".join(sorted(unrelated)))
     proxied = bool(unrelated and "http_proxy_host" in unrelated)
+    redirected = c.get("redirected")
+    if redirected and (proxied or (unrelated and "redirect_limit" in unrelated)):
+        redirected = None
     conns = []
+    first_url = None
+    if redirected:
+        other = {"ws": "wss", "wss": "ws"}[c["scheme"]] if redirected == "other-scheme" else c["scheme"]
+        first_url = f"{other}://start.test/old?from=1"
+        res.count("requests_after_redirect:" + redirected)
 
     def on_conn(conn):
         conns.append(conn)
+        if redirected and len(conns) == 1:
+            H.HandshakePeer(conn, response=lambda req: f"HTTP/1.1 302 Found\r\nLocation: {url}\r\n\r\n".encode())
+            return
         if proxied:
             H.TunnelPeer(conn, serve)
         else:
@@ -134,17 +147,17 @@ def one(res, W, c, keys_seen, fresh=False):
     u0 = len(shim.urandom_log)
     case = {"url": url, "options": opts}
     try:
-        ws_ = W.create_connection(url, timeout=3, **opts)
+        ws_ = W.create_connection(first_url or url, timeout=3, **opts)
     except Exception as e:  # noqa
         res.case(("fail", url, repr(opts)))
         res.violation("connect-failed", f"{url} {opts}: {type(e).__name__}: {e}", case, exc_type=type(e).__name__,
                       option=[k for k in opts][:1])
         return
     res.case((url, repr(sorted(opts.items(), key=str))), nontrivial=True)
-    if len(conns) != 1:
+    if len(conns) != (2 if redirected else 1):
         res.violation("connection-count", f"{url}: {len(conns)} transport connections for one connect()", case)
         return
-    conn = conns[0]
+    conn = conns[-1]
     sent = bytes(conn.sent)
     if proxied:
         t = getattr(conn, "tunnel", None)
@@ -197,7 +210,7 @@ def one(res, W, c, keys_seen, fresh=False):
             raw = None
         if raw is None or len(raw) != 16:
             bad("key-not-16-bytes", kv[0])
-        elif len(draws) != 1 or draws[0][0] != 16 or draws[0][1] != raw:
+        elif len(draws) != (2 if redirected else 1) or draws[-1][0] != 16 or draws[-1][1] != raw:
             bad("key-not-from-os-randomness", f"key {kv[0]} vs draws {[(n_, v.hex()) for n_, v in draws]}")
         else:
             res.count("keys_matched_to_draw")
@@ -217,6 +230,14 @@ def one(res, W, c, keys_seen, fresh=False):
         res.count("default_origin_recorded")
         if len(og) > 1:
             bad("origin-header", repr(og))
+        elif og:
+            # a default Origin, when one is sent, names the URL this request goes to: http for ws, https for wss, and the URL's host[:port]
+            dflt = (f"[{hostform}]" if ":" in hostform else hostform) + ("" if port in (80, 443) else f":{port}")
+            want = ("https://" if secure else "http://") + dflt
+            if og[0].lower() != want.lower():
+                bad("default-origin", f"default Origin {og[0]!r} does not name the requested URL (expected {want!r})", redirected=redirected or "no")
+            else:
+                res.count("default_origin_checked")
     sp = RH.get_all(headers, "Sec-WebSocket-Protocol")
     if c["o_subproto"]:
         if len(sp) != 1 or [t.strip() for t in sp[0].split(",")] != list(c["o_subproto"]):
